@@ -83,6 +83,20 @@ func conservationFailures(h *host.Host, pre, post []audit.Resource) (fs []consFa
 	for _, u := range destroyedList {
 		seen[u]++
 	}
+	// "emits that event": a resource whose type is known from the pre-census must be reported
+	// by the ResourceDestroyed event declared in its own type.
+	for _, e := range h.Events {
+		if !strings.HasSuffix(e.EventType.QualifiedIdentifier, ".ResourceDestroyed") {
+			continue
+		}
+		u, ok := e.FieldsMappedByName()["uuid"].(cadence.UInt64)
+		if !ok {
+			continue
+		}
+		if r, ok := preM[uint64(u)]; ok && r.TypeID != "" && e.EventType.ID() != r.TypeID+".ResourceDestroyed" {
+			fs = append(fs, consFailure{"destruction-event-of-other-type", fmt.Sprintf("stored resource uuid %d of type %s was reported destroyed by event %s", uint64(u), r.TypeID, e.EventType.ID()), uint64(u)})
+		}
+	}
 	for _, u := range sortedKeysInt(seen) {
 		n := seen[u]
 		if n > 1 {
@@ -245,6 +259,13 @@ func runC02(c *core.Ctx) {
 		if d.Err != nil || d.Escaped != nil {
 			c.Inc("deploy_failed")
 			continue
+		}
+		if s.Twin {
+			if d2 := h.Deploy(eng, host.Addr(2), "C0", s.Contract); d2.Err != nil || d2.Escaped != nil {
+				c.Inc("twin_deploy_failed")
+			} else {
+				c.Inc("twin_deployed")
+			}
 		}
 		for i, tx := range s.Txs {
 			pre, err := audit.Census(h.Ledger)
